@@ -29,18 +29,17 @@ fn assert_any_equals_typed<A, St: BumpAllocatorSettings>(typed: Stats<'_, A, St>
     }
 }
 
-/// new -> one symbolic allocation (may create chunk 2) -> symbolic follow-up in {nothing, scope exit, reset_to_start,
-/// reset, claim (handle reports zeros), deallocate}; then both oracles
-fn stats_body<A, St: BumpAllocatorSettings>(header_size: usize, budget: usize)
+/// new -> one allocation (symbolic in the first chunk, or a concrete one that forces chunk 2) -> PART:
+/// 0: bookkeeping identities; 1: type-erased == typed (any_stats() and From); 2: a follow-up operation in
+/// {scope exit, reset_to_start, reset, deallocate} then the identities; 3: a claim: handle reports zeros, guard is coherent
+fn stats_body<A, St: BumpAllocatorSettings, const PART: u8>(header_size: usize, budget: usize)
 where
     A: BaseAllocator<St::GuaranteedAllocated> + Default,
 {
     set_budget(1);
-    let Ok(mut bump) = Bump::<A, St>::try_new() else { return };
-    // never run Drop for Bump on early-return paths (it walks the chunk list and calls the base allocator: pure cost)
+    let Ok(bump) = Bump::<A, St>::try_new() else { return };
     let mut bump = core::mem::ManuallyDrop::new(bump);
     set_budget(0);
-    assert_stats_coherent(bump.stats(), header_size);
     // with budget the request is concrete and cannot fit in the first chunk (chunk switch certain)
     let l = if budget == 1 { core::alloc::Layout::from_size_align(24, 4).unwrap() } else { any_layout(24, 4) };
     set_budget(budget);
@@ -49,56 +48,74 @@ where
     kani::cover!(r.is_ok() && bump.stats().count() == 2, "[b1] second chunk created");
     kani::cover!(r.is_ok() && bump.stats().count() == 1, "[fits] allocation in the first chunk");
     kani::cover!(r.is_err(), "[b0] allocation failed");
-    let then: u8 = kani::any();
-    kani::assume(then < 5);
-    match then {
-        0 => {}
-        1 => bump.scoped(|s| {
-            let _ = s.allocate(any_layout(8, 2));
-            assert_stats_coherent(s.stats(), header_size);
-        }),
-        2 => bump.reset_to_start(),
-        3 => bump.reset(),
-        _ => {
-            if let Ok(p) = r {
-                unsafe { bump.deallocate(p.cast(), l) };
-            }
+    match PART {
+        0 => assert_stats_coherent(bump.stats(), header_size),
+        1 => {
+            assert_any_equals_typed(bump.stats(), bump.any_stats());
+            assert_any_equals_typed(bump.stats(), AnyStats::from(bump.stats()));
         }
-    }
-    assert_stats_coherent(bump.stats(), header_size);
-    assert_any_equals_typed(bump.stats(), bump.any_stats());
-    assert_any_equals_typed(bump.stats(), AnyStats::from(bump.stats()));
-    // a claimed arena reports all zeros, typed and type-erased
-    {
-        let g = bump.claim();
-        let s = bump.stats();
-        assert!(s.count() == 0 && s.size() == 0 && s.capacity() == 0 && s.allocated() == 0 && s.remaining() == 0, "C10: claimed arena reports non-zero statistics");
-        let a = bump.any_stats();
-        assert!(a.count() == 0 && a.size() == 0 && a.capacity() == 0 && a.allocated() == 0 && a.remaining() == 0, "C10: claimed arena reports non-zero any_stats");
-        assert_any_equals_typed(g.stats(), g.any_stats());
+        2 => {
+            let then: u8 = kani::any();
+            kani::assume(then < 4);
+            match then {
+                0 => bump.scoped(|s| {
+                    let _ = s.allocate(any_layout(8, 2));
+                }),
+                1 => bump.reset_to_start(),
+                2 => bump.reset(),
+                _ => {
+                    if let Ok(p) = r {
+                        unsafe { bump.deallocate(p.cast(), l) };
+                    }
+                }
+            }
+            assert_stats_coherent(bump.stats(), header_size);
+        }
+        _ => {
+            let g = bump.claim();
+            let s = bump.stats();
+            assert!(s.count() == 0 && s.size() == 0 && s.capacity() == 0 && s.allocated() == 0 && s.remaining() == 0, "C10: claimed arena reports non-zero statistics");
+            let a = bump.any_stats();
+            assert!(a.count() == 0 && a.size() == 0 && a.capacity() == 0 && a.allocated() == 0 && a.remaining() == 0, "C10: claimed arena reports non-zero any_stats");
+            assert_stats_coherent(g.stats(), header_size);
+        }
     }
     kani::cover!(true, "END: harness ran to completion");
 }
 
 macro_rules! stats_harness {
-    ($name:ident, $A:ty, $S:ty, $hdr:expr, $budget:expr) => {
+    ($name:ident, $A:ty, $S:ty, $hdr:expr, $budget:expr, $part:literal) => {
         #[kani::proof]
         #[kani::unwind(6)]
         #[kani::stub(std::alloc::handle_alloc_error, crate::stubs::hae_stub)]
         fn $name() {
-            stats_body::<$A, $S>($hdr, $budget);
+            stats_body::<$A, $S, $part>($hdr, $budget);
         }
     };
 }
-stats_harness!(stats_va_up1_b1, VA, S<1, true>, 32, 1);
-stats_harness!(stats_va_down1_b1, VA, S<1, false>, 32, 1);
-stats_harness!(stats_va_up8_b0, VA, S<8, true>, 32, 0);
-stats_harness!(stats_va_down16_b0, VA, S<16, false>, 32, 0);
-stats_harness!(stats_va_extra8_up1_b1, VA<8>, S<1, true>, 32, 1);
-stats_harness!(stats_stateful_up1_b1, VAStateful, S<1, true>, 48, 1);
-stats_harness!(stats_stateful_down1_b1, VAStateful, S<1, false>, 48, 1);
-stats_harness!(stats_over_up1_b0, VAOver, S<1, true>, 64, 0);
-stats_harness!(stats_over_down1_b0, VAOver, S<1, false>, 64, 0);
+// bookkeeping identities
+stats_harness!(stats_coherent_va_up1_b1, VA, S<1, true>, 32, 1, 0);
+stats_harness!(stats_coherent_va_down1_b1, VA, S<1, false>, 32, 1, 0);
+stats_harness!(stats_coherent_va_up8_b0, VA, S<8, true>, 32, 0, 0);
+stats_harness!(stats_coherent_va_down16_b0, VA, S<16, false>, 32, 0, 0);
+stats_harness!(stats_coherent_extra8_up1_b1, VA<8>, S<1, true>, 32, 1, 0);
+stats_harness!(stats_coherent_stateful_up1_b1, VAStateful, S<1, true>, 48, 1, 0);
+stats_harness!(stats_coherent_stateful_down1_b1, VAStateful, S<1, false>, 48, 1, 0);
+stats_harness!(stats_coherent_over_up1_b0, VAOver, S<1, true>, 64, 0, 0);
+stats_harness!(stats_coherent_over_down1_b0, VAOver, S<1, false>, 64, 0, 0);
+// type-erased statistics equal the typed ones
+stats_harness!(stats_any_va_up1_b0, VA, S<1, true>, 32, 0, 1);
+stats_harness!(stats_any_va_down1_b1, VA, S<1, false>, 32, 1, 1);
+stats_harness!(stats_any_stateful_up1_b1, VAStateful, S<1, true>, 48, 1, 1);
+stats_harness!(stats_any_stateful_down1_b1, VAStateful, S<1, false>, 48, 1, 1);
+stats_harness!(stats_any_over_up1_b0, VAOver, S<1, true>, 64, 0, 1);
+stats_harness!(stats_any_over_down1_b0, VAOver, S<1, false>, 64, 0, 1);
+// follow-up operations, claim
+stats_harness!(stats_followup_va_up1_b0, VA, S<1, true>, 32, 0, 2);
+stats_harness!(stats_followup_va_down4_b0, VA, S<4, false>, 32, 0, 2);
+stats_harness!(stats_followup_va_up1_b1, VA, S<1, true>, 32, 1, 2);
+stats_harness!(stats_claimed_va_up1_b0, VA, S<1, true>, 32, 0, 3);
+stats_harness!(stats_claimed_stateful_down1_b1, VAStateful, S<1, false>, 48, 1, 3);
 
 /// unallocated arena: all zeros, typed and type-erased
 #[kani::proof]
